@@ -140,6 +140,7 @@ pub fn variants(a: &Spec, b: &Spec, c: &Spec, empties: &[u32]) -> Vec<(&'static 
       name: None,
       enforce: 1,
       plain_api: true,
+      observe_before: false,
     })
     .collect();
   vec![
